@@ -147,6 +147,11 @@ def run(replay=None):
                         v = min(v, sc.bits_f(tc, step(tc, sc.fbits(tc, float(top)), -1)))
                     if clamped and r.below(4) == 0:
                         v = v + r.choice([3.0, 100.0, 0.0])
+                    if (has_probe or clamped) and q >= 6 and r.below(6) == 0:
+                        # beyond the point where consecutive integers stop being representable in the coordinate type
+                        # (legal over a probe and above a clamp): i + 1 is then not a value of that type
+                        big = 2 ** 24 if tc == 'f32' else 2 ** 53
+                        v = float(big + 2 * r.range(0, 50) * (1 + r.below(3)))
                     c.append(sc.fbits(tc, v))
                 coords.append(c)
             cases.append((nme, toks, coords, sizes, data))
